@@ -606,6 +606,17 @@ class Built(object):
                     pass
             if d['io'] == 'in':
                 kind, v = built.world.outcome('in', d['name'], built.resolved_alias(d, a, kwargs), built.captured(d, a, kwargs))
+                if d.get('consumes_args'):
+                    # an input that consumes its argument (pops from the queue it is handed, fills the buffer it is given ...):
+                    # the call is identified by the arguments AS PASSED
+                    for x in list(a) + list(kwargs.values()):
+                        if isinstance(x, list):
+                            if x:
+                                x.pop(0)
+                            else:
+                                x.append('filled-by-the-input')
+                        elif isinstance(x, dict):
+                            x['filled-by-the-input'] = True
             else:
                 kind, v = built.world.outcome('out', d['name'], d['alias'], {'args': list(a), 'kwargs': kwargs})
             if built.consume('value_unencodable'):
@@ -736,6 +747,9 @@ class Built(object):
     def _eval(self, e):
         if 'var' in e:
             return self.vars.get(e['var'])
+        if e.get('copy_per_call'):
+            from vlib.values import fresh
+            return fresh(e['lit'])
         return e['lit']
 
     def _exec_step(self, s, nested=False):
@@ -830,6 +844,15 @@ class Built(object):
                 got = rec.play_data(s['key'])
                 self.journal.add({'ev': 'play_data', 'key': s['key'], 'recorded': v, 'played': got})
             return None
+        if op == 'inner_op':
+            # the service calls another decorated operation from inside this one (legal when that class is skipped for recording)
+            inner = self.prog.get('_inner_built')
+            if inner is not None:
+                out = inner.run('inner')
+                self.journal.add({'ev': 'inner_op', 'outcome': out.kind})
+                if out.kind == 'exc' and not isinstance(out.value, Exception):
+                    raise out.value
+            return None
         if op == 'sleep':
             _time.sleep(s['s'])
             return None
@@ -849,7 +872,11 @@ class Built(object):
 
     def _call(self, d, args, kwargs, nested):
         j = self.journal
-        ev = j.add({'ev': 'call', 'io': d['io'], 'decl': d['name'], 'args': list(args), 'kwargs': dict(kwargs), 'nested': nested})
+        if d.get('consumes_args'):
+            from vlib.values import fresh
+            ev = j.add({'ev': 'call', 'io': d['io'], 'decl': d['name'], 'args': fresh(list(args)), 'kwargs': fresh(dict(kwargs)), 'nested': nested})
+        else:
+            ev = j.add({'ev': 'call', 'io': d['io'], 'decl': d['name'], 'args': list(args), 'kwargs': dict(kwargs), 'nested': nested})
         if not hasattr(self._tl, 'stack'):
             self._tl.stack = [None]
         self._tl.stack.append(ev)
